@@ -41,6 +41,10 @@ type fakeConn struct {
 	local   net.Addr
 	failNth map[int]bool // 1-based indices of WriteTo calls that fail
 	nwrites int
+	// onWrite, when set, is called (outside the lock, in the writer's goroutine) for every datagram
+	// successfully handed to the socket: simulated networks answer from here with inject (in a new
+	// goroutine).
+	onWrite func(b []byte, addr *net.UDPAddr)
 }
 
 func newFakeConn() *fakeConn {
@@ -60,13 +64,19 @@ func (c *fakeConn) ReadFrom(b []byte) (int, net.Addr, error) {
 
 func (c *fakeConn) WriteTo(b []byte, addr net.Addr) (int, error) {
 	c.mu.Lock()
-	defer c.mu.Unlock()
 	c.nwrites++
 	if c.failNth[c.nwrites] {
+		c.mu.Unlock()
 		return 0, fmt.Errorf("injected write failure")
 	}
 	ua, _ := addr.(*net.UDPAddr)
-	c.writes = append(c.writes, fwrite{append([]byte(nil), b...), ua})
+	cp := append([]byte(nil), b...)
+	c.writes = append(c.writes, fwrite{cp, ua})
+	cb := c.onWrite
+	c.mu.Unlock()
+	if cb != nil {
+		cb(cp, ua)
+	}
 	return len(b), nil
 }
 
